@@ -18,18 +18,18 @@ theorem agents_guard (l : List Addr) (f : Addr → Bool) :
     (Decidable.decide (l.length > 0) && l.any f) = l.any f := by
   cases l <;> simp
 
-theorem validateSendDenom_eq_spec (cfg : Cfg) (d : Denom)
-    (h : (cfg.acct (cfg.markerAddr d)).isOther = false) :
+theorem validateSendDenom_eq_spec (cfg : Cfg) (d : Denom) :
     Spec.decisionFlow (validateSendDenom cfg (getMarkerIgnoreErr cfg cfg.toAddr) d)
       = Spec.validateSendDenom cfg d := by
-  unfold validateSendDenom Spec.validateSendDenom Spec.vsd_isdm Spec.markerOf getMarker
-  rw [getMarkerIgnoreErr_eq]
+  unfold validateSendDenom Spec.validateSendDenom Spec.vsd_isdm Spec.markerOf
+  simp only [getMarkerIgnoreErr_eq]
   cases hacct : cfg.acct (cfg.markerAddr d) with
   | none => simp [Spec.markerAt, hacct, Spec.decisionFlow]
-  | other => simp [hacct, Acct.isOther] at h
+  | other => simp [Spec.markerAt, hacct, Spec.decisionFlow]
   | marker m =>
     have hmo : Spec.markerAt cfg (cfg.markerAddr d) = some m := by simp [Spec.markerAt, hacct]
     rw [hmo]
+    simp only [validateSendDenomMarker]
     have hfm := findMissing_length_ne_zero cfg m cfg.toAddr
     simp only [atLeastOne_eq, agents_guard, hasAccess_eq, isSendDeny, isReqAttrBypassAddr,
       Spec.vsd_isma, Spec.vsd_qisrc, Spec.vsd_qistofc, Spec.vsd_ista, Spec.vsd_qisdeny, Spec.vsd_qhastrans,
@@ -127,32 +127,32 @@ theorem checkToMarker_eq_spec (cfg : Cfg) :
 
 theorem bypassDenom_none {cfg : Cfg} {d : Denom} (h : cfg.acct (cfg.markerAddr d) = Acct.none) :
     bypassFeeCollectorDenom cfg d = allow ∧ Spec.isRestrictedCoin cfg d = false := by
-  simp [bypassFeeCollectorDenom, getMarker, Spec.isRestrictedCoin, Spec.markerOf, Spec.markerAt, h]
+  simp [bypassFeeCollectorDenom, getMarkerIgnoreErr, getMarker, Spec.isRestrictedCoin, Spec.markerOf, Spec.markerAt, h]
 
 theorem bypassDenom_other {cfg : Cfg} {d : Denom} (h : cfg.acct (cfg.markerAddr d) = Acct.other) :
-    bypassFeeCollectorDenom cfg d = deny .notMarker ∧ Spec.isRestrictedCoin cfg d = false := by
-  simp [bypassFeeCollectorDenom, getMarker, Spec.isRestrictedCoin, Spec.markerOf, Spec.markerAt, h]
+    bypassFeeCollectorDenom cfg d = allow ∧ Spec.isRestrictedCoin cfg d = false := by
+  simp [bypassFeeCollectorDenom, getMarkerIgnoreErr, getMarker, Spec.isRestrictedCoin, Spec.markerOf, Spec.markerAt, h]
 
 theorem bypassDenom_marker {cfg : Cfg} {d : Denom} {m : Marker} (h : cfg.acct (cfg.markerAddr d) = Acct.marker m) :
     bypassFeeCollectorDenom cfg d = (if m.mtype = MType.restricted then deny .fcBypass else allow) ∧
       Spec.isRestrictedCoin cfg d = Decidable.decide (m.mtype = MType.restricted) := by
-  simp [bypassFeeCollectorDenom, getMarker, Spec.isRestrictedCoin, Spec.markerOf, Spec.markerAt, h]
+  simp [bypassFeeCollectorDenom, getMarkerIgnoreErr, getMarker, Spec.isRestrictedCoin, Spec.markerOf, Spec.markerAt, h]
 
-theorem bypassLoop_eq_spec (cfg : Cfg) (amt : Coins) (hn : Spec.NoForeignAccountAtDenomAddr cfg amt) :
+theorem bypassLoop_eq_spec (cfg : Cfg) (amt : Coins) :
     Spec.decisionFlow (forCoins (bypassFeeCollectorDenom cfg) amt) =
       if Spec.qrc cfg amt then Spec.Flow.denied .qrc else Spec.Flow.ok := by
   induction amt with
   | nil => rfl
   | cons c t ih =>
     obtain ⟨d, a⟩ := c
-    have hd := hn (d, a) (by simp)
-    have ih' := ih fun c hc => hn c (by simp [hc])
+    have ih' := ih
     simp only [Spec.qrc] at ih' ⊢
     simp only [forCoins, List.any_cons]
     rcases hacct : cfg.acct (cfg.markerAddr d) with _ | _ | m
     · obtain ⟨h1, h2⟩ := bypassDenom_none hacct
       simp only [h1, h2, allow, Bool.false_or]; exact ih'
-    · simp [hacct, Acct.isOther] at hd
+    · obtain ⟨h1, h2⟩ := bypassDenom_other hacct
+      simp only [h1, h2, allow, Bool.false_or]; exact ih'
     · obtain ⟨h1, h2⟩ := bypassDenom_marker hacct
       simp only [h1, h2]
       by_cases hr : m.mtype = MType.restricted
@@ -182,12 +182,12 @@ theorem nonBypass_allow_iff (cfg : Cfg) (amt : Coins) (hb : onBypassPath cfg = f
 /-! ### per-denom facts used by the corollaries -/
 
 theorem validateSendDenom_other {cfg : Cfg} {tm : Option Marker} {d : Denom}
-    (h : cfg.acct (cfg.markerAddr d) = Acct.other) : validateSendDenom cfg tm d = deny .notMarker := by
-  simp [validateSendDenom, getMarker, h]
+    (h : cfg.acct (cfg.markerAddr d) = Acct.other) : validateSendDenom cfg tm d = allow := by
+  simp [validateSendDenom, getMarkerIgnoreErr, getMarker, h]
 
 theorem validateSendDenom_none {cfg : Cfg} {tm : Option Marker} {d : Denom}
     (h : cfg.acct (cfg.markerAddr d) = Acct.none) : validateSendDenom cfg tm d = allow := by
-  simp [validateSendDenom, getMarker, h]
+  simp [validateSendDenom, getMarkerIgnoreErr, getMarker, h]
 
 /-- A restricted marker's coin passes `validateSendDenom` only if the marker is active, the receiver is
 not the fee collector, and either an agent has transfer, or the sender is not on the deny list and has
@@ -204,7 +204,8 @@ theorem validateSendDenom_restricted_allow {cfg : Cfg} {tm : Option Marker} {d :
            (m.reqAttrs ≠ [] ∧ (cfg.toAddr ∈ cfg.reqAttrBypass ∨
               Spec.hasRequiredAttributes cfg m cfg.toAddr = true))))))) := by
   have hfm := findMissing_length_ne_zero cfg m cfg.toAddr
-  simp only [validateSendDenom, getMarker, h, atLeastOne_eq, agents_guard, hasAccess_eq, isSendDeny,
+  simp only [validateSendDenom, validateSendDenomMarker, getMarkerIgnoreErr, getMarker, h, atLeastOne_eq,
+    agents_guard, hasAccess_eq, isSendDeny,
     isReqAttrBypassAddr, List.contains_eq_mem, List.length_eq_zero_iff] at ha
   by_cases h1 : m.status = MStatus.active
   case neg => simp [h1, allow, deny] at ha
@@ -296,6 +297,36 @@ theorem checkFromMarker_split (cfg : Cfg) (amt : Coins) (hs : Spec.DenomsAscendi
         simp only at hd hne
         simp [hd, hne]
 
+/-! ### the code before ed45788f3 differs only where a foreign account sits at a denom's marker address -/
+
+theorem forCoins_congr (f g : Denom → Decision) (cs : Coins) (h : ∀ c ∈ cs, f c.1 = g c.1) :
+    forCoins f cs = forCoins g cs := by
+  induction cs with
+  | nil => rfl
+  | cons c t ih =>
+    obtain ⟨d, a⟩ := c
+    have hd := h (d, a) (by simp)
+    simp only at hd
+    simp only [forCoins, hd, ih fun c hc => h c (by simp [hc])]
+
+theorem validateSendDenomPreFix_eq {cfg : Cfg} {tm : Option Marker} {d : Denom}
+    (h : (cfg.acct (cfg.markerAddr d)).isOther = false) :
+    validateSendDenomPreFix cfg tm d = validateSendDenom cfg tm d := by
+  unfold validateSendDenomPreFix validateSendDenom getMarkerIgnoreErr getMarker
+  cases hacct : cfg.acct (cfg.markerAddr d) with
+  | none => rfl
+  | other => simp [hacct, Acct.isOther] at h
+  | marker m => rfl
+
+theorem bypassDenomPreFix_eq {cfg : Cfg} {d : Denom}
+    (h : (cfg.acct (cfg.markerAddr d)).isOther = false) :
+    bypassFeeCollectorDenomPreFix cfg d = bypassFeeCollectorDenom cfg d := by
+  unfold bypassFeeCollectorDenomPreFix bypassFeeCollectorDenom getMarkerIgnoreErr getMarker
+  cases hacct : cfg.acct (cfg.markerAddr d) with
+  | none => rfl
+  | other => simp [hacct, Acct.isOther] at h
+  | marker m => rfl
+
 /-! ### rewriting permission lists -/
 
 /-- Rewrite every grant's permission list: `f markerDenom grantee perms`. -/
@@ -351,26 +382,29 @@ theorem getMarkerIgnoreErr_mapPerms (f) (cfg : Cfg) (a : Addr) :
   rw [getMarker_mapPerms]
   cases getMarker cfg a <;> rfl
 
+theorem validateSendDenomMarker_mapPerms {f} (hf : KeepsRelevant f) (cfg : Cfg) (tm : Option Marker) (m : Marker) :
+    validateSendDenomMarker (mapPermsCfg f cfg) (tm.map (mapPermsMarker f)) (mapPermsMarker f m)
+      = validateSendDenomMarker cfg tm m := by
+  have h1 := atLeastOne_mapPerms hf m cfg.agents .transfer (Or.inr (Or.inr rfl))
+  have h2 := hasAccess_mapPerms hf m cfg.fromAddr .transfer (Or.inr (Or.inr rfl))
+  have h3 : (tm.map (mapPermsMarker f)).isSome = tm.isSome := by cases tm <;> rfl
+  unfold validateSendDenomMarker
+  show (if (mapPermsMarker f m).status ≠ MStatus.active then _ else _) = _
+  simp only [mapPermsCfg, isReqAttrBypassAddr, isSendDeny] at *
+  simp only [h1, h2, h3]
+  rfl
+
 theorem validateSendDenom_mapPerms {f} (hf : KeepsRelevant f) (cfg : Cfg) (tm : Option Marker) (d : Denom) :
     validateSendDenom (mapPermsCfg f cfg) (tm.map (mapPermsMarker f)) d = validateSendDenom cfg tm d := by
   unfold validateSendDenom
-  rw [getMarker_mapPerms]
+  rw [getMarkerIgnoreErr_mapPerms]
   have hcfg : (mapPermsCfg f cfg).markerAddr = cfg.markerAddr := rfl
   rw [hcfg]
-  cases hg : getMarker cfg (cfg.markerAddr d) with
-  | error e => rfl
-  | ok om =>
-    cases om with
-    | none => rfl
-    | some m =>
-      have h1 := atLeastOne_mapPerms hf m cfg.agents .transfer (Or.inr (Or.inr rfl))
-      have h2 := hasAccess_mapPerms hf m cfg.fromAddr .transfer (Or.inr (Or.inr rfl))
-      have h3 : (tm.map (mapPermsMarker f)).isSome = tm.isSome := by cases tm <;> rfl
-      simp only [Option.map_some]
-      show (if (mapPermsMarker f m).status ≠ MStatus.active then _ else _) = _
-      simp only [mapPermsCfg, isReqAttrBypassAddr, isSendDeny] at *
-      simp only [h1, h2, h3]
-      rfl
+  cases getMarkerIgnoreErr cfg (cfg.markerAddr d) with
+  | none => rfl
+  | some m =>
+    simp only [Option.map_some]
+    exact validateSendDenomMarker_mapPerms hf cfg tm m
 
 theorem checkFromMarker_mapPerms {f} (hf : KeepsRelevant f) (cfg : Cfg) (amt : Coins) :
     checkFromMarker (mapPermsCfg f cfg) amt = checkFromMarker cfg amt := by
@@ -407,11 +441,9 @@ theorem checkToMarker_mapPerms {f} (hf : KeepsRelevant f) (cfg : Cfg) (tm : Opti
 theorem bypassDenom_mapPerms (f) (cfg : Cfg) (d : Denom) :
     bypassFeeCollectorDenom (mapPermsCfg f cfg) d = bypassFeeCollectorDenom cfg d := by
   unfold bypassFeeCollectorDenom
-  rw [getMarker_mapPerms]
+  rw [getMarkerIgnoreErr_mapPerms]
   have hcfg : (mapPermsCfg f cfg).markerAddr = cfg.markerAddr := rfl
   rw [hcfg]
-  cases getMarker cfg (cfg.markerAddr d) with
-  | error e => rfl
-  | ok om => cases om <;> rfl
+  cases getMarkerIgnoreErr cfg (cfg.markerAddr d) <;> rfl
 
 end PvProofs.MkrSendLemmas
